@@ -136,7 +136,7 @@ func runC02(c *Ctx) {
 	p := L.Pkgs[genPkg]
 	okCall := false
 	for _, s := range collectTemplates(p) {
-		if s.fnName() == "InjectorProviderCallStmt.buildProviderCall" && s.kind == "SelectorExpr" {
+		if s.kind == "SelectorExpr" && strings.HasSuffix(exprString(s.fields["X"]), ".Provider.ASTExpr") {
 			n, _ := identConst(p, s.fn, s.fields["Sel"])
 			x := exprString(s.fields["X"])
 			if n == "Fn" && x == "stmt.Provider.ASTExpr" && s.parent != nil && s.parent.kind == "CallExpr" && s.slot == "Fun" && s.parent.parent != nil && s.parent.parent.kind == "CallExpr" && s.parent.slot == "Fun" {
